@@ -72,22 +72,26 @@ class Handlers:
         return (i["root"], "%s@%s" % (i["role"], i["target"]))
 
     def stable_name(self, body):
-        """Line-free and closure-index-free name: root fn + the chain of roles of the enclosing
-        closures (robust against closures being added/removed elsewhere in the function)."""
-        labels = []
-        b = body
-        seen = set()
-        while b is not None and b.kind == "closure" and b.id not in seen:
-            seen.add(b.id)
-            if b.id in self.info:
-                i = self.info[b.id]
-                labels.append("%s@%s" % (i["role"], i["target"]))
+        """Line-free, closure-index-free, nesting-free name: the TYPE the body belongs to plus the
+        body's own role (handler role + origin kind of what it observes, or SOURCE / TASK / COUNT_UP ..),
+        so that adding closures, extracting helpers or building the handler elsewhere does not re-key."""
+        if body.kind != "closure":
+            return self.type_root(body)
+        if body.id in self.info:
+            i = self.info[body.id]
+            label = "%s@%s" % (i["role"], i["target"])
+        else:
+            rs = sorted(r for r in self.E.role_of(body.id) if not r.startswith(("ARG:", "STD:")))
+            if rs:
+                label = rs[0]
             else:
-                rs = [r for r in self.E.role_of(b.id)]
-                labels.append(rs[0].split(":")[0] if rs else "closure")
-            cr = self.P.created.get(b.id)
-            b = cr[0] if cr else None
-        return self.type_root(body) + "".join("/" + l for l in reversed(labels))
+                # an anonymous inner closure: name it after the nearest enclosing closure that has a role
+                cr = self.P.created.get(body.id)
+                parent = cr[0] if cr else None
+                if parent is not None and parent.kind == "closure" and parent.id != body.id:
+                    return self.stable_name(parent) + "/inner"
+                label = "closure"
+        return self.type_root(body) + "/" + label
 
     def is_trigger_triple(self, t):
         """A trigger/gate observer: its next-handler ignores its payload altogether (`|_, _|`)."""
